@@ -17,7 +17,7 @@ from ..ast.visitor import DefaultVisitor
 from ..fpc_context import FPCoreContext
 from ..interpret import Interpreter, Value, get_default_interpreter
 from ..interpret.value import to_value, unwrap_foreign
-from ..number import REAL, Context
+from ..number import REAL, Context, Float
 from .define_use import DefineUse, DefineUseAnalysis, Definition, DefSite
 
 
@@ -42,6 +42,28 @@ class PartialEvalInfo:
     by_def: dict[Definition, Value]
     by_expr: dict[Expr, Value]
     def_use: DefineUseAnalysis
+
+
+def _same_value(a, b) -> bool:
+    """Equal, and not told apart by anything a program can observe: ``==``
+    identifies the two zeros, which ``1 / x`` does not."""
+    match a, b:
+        case (list(), list()) | (tuple(), tuple()):
+            return len(a) == len(b) and all(_same_value(x, y) for x, y in zip(a, b))
+        case _:
+            if a != b:
+                return False
+            return _is_neg_zero(a) == _is_neg_zero(b)
+
+
+def _same_lattice(a, b) -> bool:
+    if a is None or b is None or a is _TOP or b is _TOP:
+        return a is b
+    return _same_value(a, b)
+
+
+def _is_neg_zero(x) -> bool:
+    return isinstance(x, Float) and x.is_zero() and x.s
 
 
 def _holds_list(val) -> bool:
@@ -146,7 +168,7 @@ class _PartialEvalInstance(DefaultVisitor):
             return a
         if a is _TOP or b is _TOP:
             return _TOP
-        return a if a == b else _TOP
+        return a if _same_value(a, b) else _TOP
 
     def _merge_branch_phis(self, stmt: Stmt):
         """Merge phis after an ``if`` / ``if-else``: both branches are
@@ -416,7 +438,7 @@ class _PartialEvalInstance(DefaultVisitor):
                 rhs = self.by_def.get(self.def_use.defs[phi.rhs], _TOP)
                 new = self._meet(lhs, rhs)
                 old = self.by_def.get(phi)
-                if new != old:
+                if not _same_lattice(new, old):
                     if new is None:
                         self.by_def.pop(phi, None)
                     else:
